@@ -215,6 +215,15 @@ def structOk (d : ArrayDoc) (gridRank : Nat) : Bool :=
   d.extra.all (fun kv => !kv.2.mu) && gridRank == d.shape.length &&
   (match d.dimNames with | some ns => ns.length == d.shape.length | none => true)
 
+/-- storage transformers (`StorageTransformerChain::from_metadata`): zarrs registers none, so every named transformer
+    is unknown: one that must be understood (the default) makes `Array::open` fail, one marked
+    `must_understand: false` is skipped -/
+def transformersOk (d : ArrayDoc) : Bool := d.st.all (fun m => !m.mu)
+
+/-- what `Array::open` demands of a parsed document beyond the plugins' acceptance of its data type, grid, key
+    encoding and codecs -/
+def openOk (d : ArrayDoc) (gridRank : Nat) : Bool := structOk d gridRank && transformersOk d
+
 def groupOk (d : GroupDoc) : Bool := d.extra.all (fun kv => !kv.2.mu)
 
 /-- text level: what is stored and what opening reads -/
